@@ -542,7 +542,14 @@ func C16(p *core.Program, r *core.Report) {
 		r.Check(n > 0, "listing/"+fname(fn)+"/collects", "the listing collects elements", p.Pos(fn.Pos()), "", "no append found")
 	}
 
+	// the provider list is edited by Register/Unregister and walked on shutdown: always under its mutex
+	gp := newGuardedEngine(p)
+	nProv := gp.checkGuarded(r, []guardedField{{claPkg, "Manager", "providers", "pkg/cla.Manager.providersMutex"}}, true)
+	r.Count("accesses to Manager.providers", nProv)
+	r.Min("accesses to Manager.providers", 4)
+
 	checkStoppableGoroutines(p, r, claPkg)
+	checkLoopVarCapture(p, r)
 	for _, sub := range []string{"pkg/cla/mtcp", "pkg/cla/tcpclv4", "pkg/cla/bbc"} {
 		checkStoppableGoroutines(p, r, sub)
 	}
